@@ -558,9 +558,224 @@ def run_nsprog(case):
     return {"init": init, "obs": obs, "fin": fin}
 
 
+# ---------------------------------------------------------------- nssub cases
+# Namespace SUBCLASSES with their own constructor (model/RArgsSub.v).  Class table: the
+# associated classes first (index c), then the subclasses [base, desc] with desc one of
+# ["plain"], ["preset", kw], ["renamed", perm], ["force", kw].
+MISSING = object()
+
+
+class ValCodec:
+    """the value universe of the nsprog cases (same encoding as run_nsprog)"""
+
+    def __init__(self):
+        self.nans = {}
+
+    def dec(self, v):
+        t = v[0]
+        if t == "i":
+            return int(v[1])
+        if t == "b":
+            return bool(v[1])
+        if t == "f":
+            return float(v[1])
+        if t == "n":
+            return None
+        if t == "e":
+            return Ellipsis
+        if t == "s":
+            return STRS[v[1]]
+        if t == "t":
+            return ()
+        if t == "nan":
+            if v[1] not in self.nans:
+                self.nans[v[1]] = SelfUnequal(v[1]) if v[1] % 2 else float("nan")
+            return self.nans[v[1]]
+        raise AssertionError(v)
+
+    def enc(self, x):
+        for k, o in self.nans.items():
+            if o is x:
+                return ["nan", k]
+        if x is None:
+            return ["n"]
+        if x is Ellipsis:
+            return ["e"]
+        if type(x) is bool:
+            return ["b", int(x)]
+        if type(x) is int:
+            return ["i", x]
+        if type(x) is float and x == x and x == int(x) and abs(x) < 10**6:
+            return ["f", int(x)]
+        if type(x) is str and x in STRS:
+            return ["s", STRS.index(x)]
+        if type(x) is tuple and not x:
+            return ["t"]
+        return ["nan", NAN_UNKNOWN]
+
+
+def make_sub_cls(K, desc, nf, codec):
+    """a subclass of the namespace class K with the constructor described by desc"""
+    kind = desc[0]
+    if kind == "plain":
+        body = {}
+    elif kind == "preset":
+        pk = {field_name(j, nf): codec.dec(v) for j, v in desc[1]}
+
+        def __init__(self):
+            K.__init__(self, **pk)                      # super().__init__(quality=9, ...)
+        body = {"__init__": __init__}
+    elif kind == "force":
+        pk = {field_name(j, nf): codec.dec(v) for j, v in desc[1]}
+
+        def __init__(self, **fields):
+            K.__init__(self, **{**fields, **pk})
+        body = {"__init__": __init__}
+    elif kind == "renamed":
+        perm = desc[1]
+        names = [field_name(j, nf) for j in perm]
+        params = "".join(f", p{j}=MISSING" for j in range(len(perm)))
+        given = ", ".join(f"p{j}" for j in range(len(perm)))
+        src = (f"def __init__(self{params}):\n"
+               f"    given = [{given}]\n"
+               f"    K.__init__(self, **{{NAMES[j]: v for j, v in enumerate(given) if v is not MISSING}})\n")
+        env = {"K": K, "NAMES": names, "MISSING": MISSING}
+        exec(src, env)
+        body = {"__init__": env["__init__"]}
+    else:
+        raise AssertionError(kind)
+    return type(K)(uniq("Sub"), (K,), body)
+
+
+def run_nssub(case):
+    codec = ValCodec()
+    dec, enc = codec.dec, codec.enc
+    cl = case["cl"]
+    rcls, classes = [], []
+    base = Renderable
+    for c, dfl in enumerate(cl):
+        R = RMeta(uniq(f"R{c}"), (base,), {})
+        classes.append(make_args_cls(R, [dec(v) for v in dfl]))   # associated before subclassing
+        rcls.append(R)
+        base = R
+    ncl = len(cl)
+    nfs = [len(d) for d in cl]
+    base_of = list(range(ncl))
+    descs = [["plain"]] * ncl
+    for b, desc in case["subs"]:
+        classes.append(make_sub_cls(classes[b], desc, nfs[b], codec))
+        base_of.append(b)
+        descs.append(desc)
+    objs = [RenderArgs(R)[R] for R in rcls]
+    ok0 = all(type(o) is K for o, K in zip(objs, classes))
+    results = list(objs)
+
+    def entry(ns):
+        K = type(ns)
+        s = classes.index(K) if K in classes else 99
+        names = list(K.get_fields())
+        d = ns.as_dict()
+        dvals = [enc(x) for x in d.values()] if list(d) == names else [["nan", NAN_UNKNOWN]]
+        return [s, dvals, [enc(getattr(ns, name)) for name in names], hash(ns)]
+
+    def dump():
+        return [entry(o) for o in objs]
+
+    def class_fields():
+        return [[enc(x) for x in K.get_fields().values()] for K in classes[:ncl]]
+
+    def var(x):
+        if x >= len(results) or not isinstance(results[x], ArgsNamespace):
+            raise BadOperand
+        return results[x]
+
+    def kwargs(c, kw):
+        return {field_name(j, nfs[c]): dec(v) for j, v in kw}
+
+    def rc(m):
+        if m >= ncl:
+            raise BadOperand
+        return rcls[m]
+
+    def execute(o, flags):
+        kind = o["op"]
+        if kind == "new":
+            s = o["s"]
+            if s >= len(classes):
+                raise BadOperand
+            c = base_of[s]
+            if descs[s][0] == "renamed":
+                kw = {f"p{j}": dec(v) for j, v in o["kw"]}
+            else:
+                kw = kwargs(c, o["kw"])
+            return classes[s](*[dec(v) for v in o["pos"]], **kw)
+        x = var(o["x"])
+        s = classes.index(type(x))
+        c = base_of[s]
+        if kind == "upd":
+            return x.update(**kwargs(c, o["kw"]))
+        if kind == "raupd":
+            ra = RenderArgs(rc(o["m"]), x)
+            before = list(ra)
+            try:
+                new = ra.update(rcls[c], **kwargs(c, o["kw"]))
+            finally:
+                flags.append(len(list(ra)) == len(before) and all(a is b for a, b in zip(ra, before))
+                             and ra[rcls[c]] is x and ra.render_cls is rcls[o["m"]])
+            flags.append(isinstance(new, RenderArgs) and new.render_cls is rcls[o["m"]]
+                         and all(new[rcls[k]] is ra[rcls[k]] for k in range(o["m"] + 1) if k != c))
+            return new[rcls[c]]
+        if kind == "hold":
+            r = o["r"]
+            if r[0] == "pos":
+                ra = +x
+            elif r[0] == "or":
+                ra = x | RenderArgs(rc(r[1]))
+            elif r[0] == "ror":
+                ra = RenderArgs(rc(r[1])) | x
+            elif r[0] == "tora":
+                ra = x.to_render_args(rc(r[1]))
+            elif r[0] == "conv":
+                rc(r[2])
+                ra = RenderArgs(rc(r[1]), x).convert(rc(r[2]))
+                if r[2] < c:
+                    raise BadOperand
+            else:
+                raise AssertionError(r)
+            flags.append(isinstance(ra, RenderArgs))
+            return ra[rcls[c]]
+        raise AssertionError(kind)
+
+    init = dump()
+    obs = []
+    for o in case["ops"]:
+        flags = [ok0]
+        try:
+            res = execute(o, flags)
+            code = None
+        except BadOperand:
+            res, code = None, 6
+        except Exception as e:  # noqa: BLE001
+            res, code = None, err_code(e)
+        if res is not None and not isinstance(res, ArgsNamespace):
+            res, code = None, 91
+        results.append(res)
+        if res is None:
+            obs.append({"res": -1 - code, "val": ["n"], "dump": dump(), "eq": [], "dfl": class_fields(),
+                        "flags": all(flags)})
+            continue
+        j = next((i for i, y in enumerate(objs) if y is res), None)
+        if j is None:
+            objs.append(res)
+            j = len(objs) - 1
+        obs.append({"res": j, "val": ["n"], "dump": dump(), "eq": [], "dfl": class_fields(),
+                    "flags": all(flags)})
+    return {"init": init, "obs": obs}
+
+
 def run_case(case):
     return {"prog": run_prog, "stmt": run_stmt, "ctor": run_ctor, "rend": run_rend,
-            "nsprog": run_nsprog}[case["type"]](case)
+            "nsprog": run_nsprog, "nssub": run_nssub}[case["type"]](case)
 
 
 if __name__ == "__main__":
